@@ -269,6 +269,13 @@ def enumerated(tier, seed):
             yield dict(mn=mn, op=text, cls="invalid_by_construction")
         for text in LABEL_OPERANDS:      # operands that name the sentinel label or the statement's own label
             yield dict(mn=mn, op=text, cls="label_operand")
+    # the same statement followed by further label,PCR statements and a gap that puts its displacement near the
+    # 8-bit limit: its size is decided together with theirs
+    for mn in ("LDA", "LEAX", "STA", "LDY", "CMPD", "JMP"):
+        for text in ("ZZEND,PCR", "[ZZEND,PCR]", "ZZEND+2,PCR"):
+            for k in (1, 2, 3):
+                for gap in range(108, 128):
+                    yield dict(mn=mn, op=text, cls="label_operand", ctx=dict(k=k, gap=gap))
     for mn in MUT_MNEMONICS:
         for base in _BASE120:
             for i in range(len(base)):
@@ -319,8 +326,11 @@ def searches(tier):
 
 
 def build(case):
-    return [A.line("", "ORG", "$1000"), A.line("ZZSELF" if "ZZSELF" in case["op"] else "", case["mn"], case["op"]),
-            A.line("ZZEND", "NOP")]
+    lines = [A.line("", "ORG", "$1000"), A.line("ZZSELF" if "ZZSELF" in case["op"] else "", case["mn"], case["op"])]
+    ctx = case.get("ctx")
+    if ctx:
+        lines += [A.line("", "LDB", "ZZEND,PCR") for _ in range(ctx["k"])] + [A.line("", "RMB", str(ctx["gap"]))]
+    return lines + [A.line("ZZEND", "NOP")]
 
 
 def render(case):
@@ -343,12 +353,30 @@ def execute(case):
         return viol("{} {} must be rejected but was accepted as {}".format(mn, text, out.image.hex()),
                     fid=fid + "accepted-invalid", labels=labels)
     img = out.image
-    if len(out.rows) != 3 or out.rows[1][0] is None or out.rows[2][0] is None:
+    ctx = case.get("ctx")
+    want_rows = 3 + (ctx["k"] + 1 if ctx else 0)
+    if len(out.rows) != want_rows or out.rows[1][0] is None or out.rows[2][0] is None:
         return viol("listing rows unreadable: {}".format([r[2] for r in out.rows]), fid=fid + "listing", labels=labels)
     if img[-1:] != b"\x12":
         return viol("sentinel NOP missing from image {}".format(img.hex()), fid=fid + "layout", labels=labels)
     img = img[:-1]
     reserved = (out.rows[2][0] - out.rows[1][0]) % 65536
+    if ctx:
+        # the statement under test is followed by other statements: its bytes are the first `reserved` ones, and the
+        # following statements must decode in step up to the gap
+        insn = R.decode(img, 0)
+        if insn is None or insn.length != reserved:
+            return viol("{} {} (followed by {} label,PCR statements and RMB {}): bytes {} decode as {} but the listing reserves {}".format(
+                mn, text, ctx["k"], ctx["gap"], img[:6].hex(), insn, reserved), fid=fid + "size", labels=labels)
+        pos = insn.length
+        for j in range(ctx["k"]):
+            nxt = R.decode(img, pos)
+            want = (out.rows[3 + j][0] - out.rows[2 + j][0]) % 65536
+            if nxt is None or nxt.op != "LDB" or nxt.length != want:
+                return viol("{} {}: following statement {} decodes as {} (listing reserves {})".format(mn, text, j, nxt, want),
+                            fid=fid + "size", labels=labels)
+            pos += nxt.length
+        img = img[:insn.length]
     if reserved != len(img):
         return viol("{} {}: {} bytes emitted ({}) but the listing reserves {}".format(mn, text, len(img), img.hex(), reserved),
                     fid=fid + "size", labels=labels)
